@@ -175,7 +175,7 @@ def random_cfg(rng, small=True):
     c = {"ppqn": rng.choice([24, 24, 24, 48, 12, 96]), "tracks": rng.randint(1, 4), "pitLo": lo, "pitHi": rng.choice([lo + 2, 72, 108]),
          "steps": DEFAULT_STEPS if rng.random() < .7 else [2, 4, 8, 12, 24],
          "values": rng.choice([[4, 6, 8, 9, 12, 16, 18, 24, 36], [6, 12, 24], [12, 24, 48, 96], [2, 4, 8]]),
-         "nbins": rng.choice([1, 2, 3, 4, 8, 16, 127]), "tsLo": 2, "tsHi": 16,
+         "nbins": rng.choice([1, 2, 3, 4, 8, 16, 127, rng.randint(1, 128), rng.randint(1, 128)]), "tsLo": 2, "tsHi": 16,
          "running": rng.random() < .5, "fuseTrk": rng.random() < .5, "fuseVal": rng.random() < .5,
          "fuseVel": rng.random() < .5}
     c["pitHi"] = max(c["pitHi"], c["pitLo"] + 1)
@@ -430,7 +430,7 @@ def closure_cases(ctx):
                 c = dict(base, tsLo=rng_ts[0], tsHi=rng_ts[1])
                 cases.append((len(cases), c, {"tracks": one(), "sigs": [[0, n, d]], "end": 24, "cap": True, "bars": False}, f"ts {n}/{d}"))
     # every velocity under many bin counts, fused and unfused
-    bins = [1, 2, 3, 4, 5, 6, 7, 8, 10, 12, 16, 32, 127] if ctx.thorough else [1, 2, 3, 5, 6, 8, 10, 16, 127]
+    bins = list(range(1, 129)) if ctx.thorough else [1, 2, 3, 5, 6, 8, 10, 16, 24, 48, 50, 64, 100, 127, 128]
     for nb in bins:
         for fuse in (True, False):
             for run in (True, False):
@@ -478,6 +478,10 @@ def run_c02(ctx, g):
                             lattice.append({"ppqn": 24, "tracks": tr, "pitLo": pr[0], "pitHi": pr[1], "steps": DEFAULT_STEPS,
                                             "values": vs, "nbins": nb, "tsLo": 2, "tsHi": 16, "running": flags[0],
                                             "fuseTrk": flags[1], "fuseVal": flags[2], "fuseVel": flags[3]})
+        for nb in range(1, 129):
+            for fv in (True, False):
+                lattice.append({"ppqn": 24, "tracks": 1, "pitLo": 60, "pitHi": 61, "steps": DEFAULT_STEPS, "values": [12],
+                                "nbins": nb, "tsLo": 2, "tsHi": 16, "running": True, "fuseTrk": True, "fuseVal": True, "fuseVel": fv})
         if not ctx.thorough:
             lattice.append(dict(lattice[-1], pitLo=21, pitHi=108, values=[4, 6, 8, 9, 12, 16, 18, 24, 36]))
             lattice.append(dict(lattice[0], pitLo=21, pitHi=108, values=[4, 6, 8, 9, 12, 16, 18, 24, 36], nbins=8))
